@@ -80,6 +80,17 @@ s4 = sub(s4, "\t\t} else if pd.schedwhen+forcePreemptNS <= now {\n\t\t\tpreempto
          "\t\t} else if pd.schedwhen+forcePreemptNS <= now && !simRandOn { // VERIF\n\t\t\tpreemptone(pp)\n", "proc.go")
 open(os.path.join(outdir, "proc.go"), "w").write(s4)
 
-json.dump({"Replace": {p: os.path.join(outdir, "rand.go"), p2: os.path.join(outdir, "select.go"), p3: os.path.join(outdir, "time.go"), p4: os.path.join(outdir, "proc.go")}},
+# ---- runtime2.go: a goroutine waiting for a sync.Mutex / RWMutex counts as durably blocked
+# in a synctest bubble. Upstream excludes these because the holder might live outside the
+# bubble; in a simulated run every goroutine of the system is inside it. This lets the
+# simulator park a task that holds a plain mutex (e.g. inside a callback) without wedging
+# synctest.Wait: contenders block durably, and a real lock cycle surfaces as the bubble's
+# deadlock panic instead of a hang.
+p5 = os.path.join(goroot, "src/runtime/runtime2.go")
+s5 = open(p5).read()
+s5 = sub(s5, "\twaitReasonSynctestSelect:        true,\n}", "\twaitReasonSynctestSelect:        true,\n\twaitReasonSyncMutexLock:         true, // VERIF\n\twaitReasonSyncRWMutexRLock:      true, // VERIF\n\twaitReasonSyncRWMutexLock:       true, // VERIF\n}", "runtime2.go")
+open(os.path.join(outdir, "runtime2.go"), "w").write(s5)
+
+json.dump({"Replace": {p: os.path.join(outdir, "rand.go"), p2: os.path.join(outdir, "select.go"), p3: os.path.join(outdir, "time.go"), p4: os.path.join(outdir, "proc.go"), p5: os.path.join(outdir, "runtime2.go")}},
           open(os.path.join(outdir, "overlay.json"), "w"), indent=1)
 print(os.path.join(outdir, "overlay.json"))
